@@ -270,12 +270,6 @@ def rule_compile(repo, col):
     col.decide("F5", m, writes[0] if writes else f.node, len(writes) == 1 and [norm(a) for a in writes[0].args] == ["%s.to_dimacs()" % cnf], "the compiler input is the cnf's DIMACS text",
                "_compile must write %s.to_dimacs() (unweighted, complete) as the compiler's input" % cnf, **({} if writes else {"construct": "non-trivial path: write", "function": "_compile"}))
     # F4: trivial path
-    nnf = None
-    for st in ast.walk(f.node):
-        if isinstance(st, ast.Assign) and isinstance(st.targets[0], ast.Name) and isinstance(st.value, ast.Call) and dotted(st.value.func) == "DDNNF":
-            nnf = st.targets[0].id
-    if nnf is None:
-        raise AnalysisError("_compile: DDNNF() not found")
     tb = None
     for st in f.node.body:
         if isinstance(st, ast.If) and norm(st.test) == "%s.is_trivial()" % cnf:
@@ -285,10 +279,31 @@ def rule_compile(repo, col):
     if tb is None:
         # guard-clause form: statements after an early-returning non-trivial branch are not modelled
         raise AnalysisError("_compile: trivial branch not found as an if-branch")
-    rng = "range(1, %s.atomcount + 1)" % cnf
-    wname = None
+    scope = f
     names_src = None
     for st in walk_no_nested(f.node):
+        if isinstance(st, ast.Assign) and isinstance(st.targets[0], ast.Name) and norm(st.value) == "%s.get_names_with_label()" % cnf:
+            names_src = st.targets[0].id
+    # inlining bound 1: the trivial branch may be `return helper(cnf, ...)`; the helper's body is then the trivial path
+    if len(tb) == 1 and isinstance(tb[0], ast.Return) and isinstance(tb[0].value, ast.Call) and isinstance(tb[0].value.func, ast.Name) and tb[0].value.func.id in m.functions:
+        h = m.functions[tb[0].value.func.id]
+        argn = [norm(a_) for a_ in tb[0].value.args]
+        if cnf not in argn or tb[0].value.keywords or len(argn) != len(h.params):
+            raise AnalysisError("_compile: trivial-path helper call not understood: %s" % norm(tb[0].value))
+        if names_src is not None and names_src in argn:
+            names_src = h.params[argn.index(names_src)]
+        cnf = h.params[argn.index(cnf)]
+        tb = h.node.body
+        scope = h
+    nnf = None
+    for st in ast.walk(scope.node):
+        if isinstance(st, ast.Assign) and isinstance(st.targets[0], ast.Name) and isinstance(st.value, ast.Call) and dotted(st.value.func) == "DDNNF":
+            nnf = st.targets[0].id
+    if nnf is None:
+        raise AnalysisError("_compile: DDNNF() not found")
+    rng = "range(1, %s.atomcount + 1)" % cnf
+    wname = None
+    for st in walk_no_nested(scope.node):
         if isinstance(st, ast.Assign) and isinstance(st.targets[0], ast.Name):
             if norm(st.value) == "%s.get_weights()" % cnf:
                 wname = st.targets[0].id
